@@ -1035,7 +1035,7 @@ class MirProgram:
         for f in fns:
             self._index(f)
 
-    IMPL_RE = re.compile(r"^(?P<mod>.*?)<impl at (?P<file>[^:>]+):(?P<line>\d+):\d+: \d+:\d+>::(?P<rest>.*)$")
+    IMPL_RE = re.compile(r"^(?P<mod>.*?)<impl at (?P<file>[^:>]+):(?P<line>\d+):(?P<col>\d+): \d+:\d+>::(?P<rest>.*)$")
 
     def _index(self, f):
         name = f.name
@@ -1049,6 +1049,8 @@ class MirProgram:
         if m:
             key = (m.group("file"), int(m.group("line")))
             tr_ty = self.types.impls.get(key)
+            if tr_ty is None:
+                tr_ty = self.types.derives.get((m.group("file"), int(m.group("line")), int(m.group("col"))))
             method = m.group("rest")
             if tr_ty:
                 self.by_key.setdefault((tr_ty[0], tr_ty[1], method), []).append(f)
@@ -1076,6 +1078,11 @@ class MirProgram:
         if m:
             ty, tr, method = last_seg(m.group(1).lstrip("&").strip()), last_seg(m.group(2)), m.group(3)
             cands = self.by_key.get((tr, ty, method), [])
+            if not cands:
+                # default method of the trait: body is named `Trait::method`
+                dflt = [f for f in self.free.get(method, []) if f.name.split("::")[-2:] == [tr, method]]
+                if len(dflt) == 1:
+                    return dflt[0]
             return self._pick(cands, args, m.group(2))
         # path::<impl Type>::method
         m = re.match(r"^(.*)<impl (.*)>::(\w+)$", base)
@@ -1712,11 +1719,36 @@ def m_iter_collect_result(ex, st, callee, args, dest_ty, frame, depth):
     return results
 
 
+def m_prim_eq(ex, st, callee, args, dest_ty, frame, depth):
+    """<&int as PartialEq>::eq / <int as PartialEq>::eq (any number of & layers)"""
+    def deref(x):
+        while isinstance(x, Ref) or (isinstance(x, Lazy) and is_ref(x.ty)):
+            c, p = ex.deref_target(st, x)
+            x = ex.read(st, c, p)
+        return x
+    a, b = ex.as_prim(deref(args[0])), ex.as_prim(deref(args[1]))
+    return _ret(st, Prim("bool", a.e == b.e))
+
+
+def m_partialeq_ne(ex, st, callee, args, dest_ty, frame, depth):
+    """default `PartialEq::ne`: !eq"""
+    outs = ex.call(st, callee[:-4] + "::eq", args, "bool", frame, depth)
+    res = []
+    for s2, o in outs:
+        if o.kind == "ret":
+            res.append((s2, Outcome("ret", Prim("bool", z3.Not(ex.as_prim(o.value).e)))))
+        else:
+            res.append((s2, o))
+    return res
+
+
 def _rx(p):
     return re.compile(p)
 
 
 DEFAULT_MODELS = [
+    (_rx(r"^<&*(i8|i16|i32|i64|isize|u8|u16|u32|u64|usize|bool|char) as (std::cmp::)?PartialEq(<.*>)?>::eq$"), m_prim_eq),
+    (_rx(r" as (std::cmp::)?PartialEq(<.*>)?>::ne$"), m_partialeq_ne),
     (_rx(r"^(std::hint::|core::hint::)?must_use::<"), m_identity),
     (_rx(r"^<Vec<.*> as (std::ops::)?Deref(Mut)?>::deref(_mut)?$|^Vec::<.*>::as_slice$"), m_vec_deref),
     (_rx(r"^core::slice::<impl \[.*\]>::split_last$"), m_slice_split_last),
